@@ -506,6 +506,14 @@ class MafHeader(MutableMapping):
                 header[MafHeader.ContigKey] = MafHeaderContigRecord(
                     value=header[MafHeader.SortOrderKey].value._contigs
                 )
+        # the sort order and the contigs may come one from the reader and the
+        # other from the arguments: a coordinate-based sort order orders by
+        # the contigs the header declares (as when the header is parsed)
+        if header.contigs() and isinstance(header.sort_order(), Coordinate):
+            if header.sort_order()._contigs != header.contigs():
+                header[MafHeader.SortOrderKey] = MafHeaderSortOrderRecord(
+                    value=header.sort_order().name(), contigs=header.contigs()
+                )
         return header
 
     @classmethod
